@@ -48,6 +48,7 @@ class ValueProfile:
         fam = {}
         for f in ("mk", "ar", "cmp", "cv", "val", "fmt", "lk", "cp", "curve", "fixed", "flt", "reg"):
             fam[f] = self.family_bias.get(f, 1.0) * rng.choice([0.3, 1, 1, 1])
+        fam["gc"] = rng.choice([0, 0.25, 0.5, 1])
         intr_rate = rng.choice([0, 0, 0.05, 0.1, 0.2]) if self.use_interrupt else 0
         restart_at = []
         if self.use_restart and rng.random() < 0.3 and n_steps >= 10:
